@@ -29,11 +29,11 @@ ASSUMPTIONS = [
 NS = {'T': T, 'S': S, 'A': A, 'Path': Path, 'len': len, 'slice': slice}
 
 # step terms; argument sources are python expressions evaluated in NS
-ITEM_ARGS = ["'k'", "0", "-1", "None", "1.5", "True", "(1, 2)", "(1,)", "()", "\"it's\"", "'d.t'", "'q\"'",
+ITEM_ARGS = ["'k'", "0", "-1", "None", "1.5", "True", "1", "1.0", "'A'", "(1, 2)", "(1,)", "()", "\"it's\"", "'d.t'", "'q\"'",
              "slice(1, 2)", "slice(None, None, 2)", "(slice(1, 2), 3)", "len", "T.a"]
 CALL_ARGS = [("", ""), ("1, 'x'", ""), ("", "k=None"), ("T.a", ""), ("len", "")]
-STEPS = [['.', 'a']] + [['[', a] for a in ITEM_ARGS] + [['(', a, k] for a, k in CALL_ARGS] + [['x'], ['X']]
-P_SEGS = ["'a'", "'d.t'", "0", "None", "(1, 2)"]
+STEPS = [['.', 'a'], ['.', 'T']] + [['[', a] for a in ITEM_ARGS] + [['(', a, k] for a, k in CALL_ARGS] + [['x'], ['X']]
+P_SEGS = ["'a'", "'d.t'", "0", "None", "(1, 2)", "'S'"]
 
 
 def ev(src):
@@ -351,6 +351,56 @@ def gen_compose(tier):
     return cases
 
 
+# ---------------------------------------------------------------------------
+# repr must not depend on which equal-but-distinct expression was printed first (history, forked child per order)
+
+EQUAL_GROUPS = [["T[1]", "T[1.0]", "T[True]"], ["T[0]", "T[0.0]", "T[False]"], ["T[(1, 2)]", "T[(1.0, 2.0)]"], ["T['a'][1:2]", "T['a'][1.0:2.0]"],
+                ["Path('a', 1)", "Path('a', 1.0)", "Path('a', True)"], ["S[1]", "S[True]"], ["T.a[0]", "T.a[False]"]]
+
+
+def run_repr_history(case):
+    import os
+    import pickle as pk
+    order = case
+
+    def work():
+        out = []
+        for src in order:
+            x = eval(src, dict(NS))
+            out.append((src, repr(x), repr(struct(eval(repr(x), dict(NS)))), repr(struct(x))))
+        return out
+    r, w = os.pipe()
+    pid = os.fork()
+    if pid == 0:
+        try:
+            os.close(r)
+            with os.fdopen(w, 'wb') as f:
+                try:
+                    f.write(pk.dumps(work()))
+                except BaseException as e:
+                    f.write(pk.dumps([('child-error', repr(e), '', 'x')]))
+        finally:
+            os._exit(0)
+    os.close(w)
+    with os.fdopen(r, 'rb') as f:
+        res = pk.loads(f.read())
+    os.waitpid(pid, 0)
+    for src, rx, sy, sx in res:
+        if sy != sx:
+            return R({'expected': 'eval(repr(%s)) has the structure %s' % (src, sx), 'observed': 'repr is %s, which evaluates to %s' % (rx, sy),
+                      'printed_in_this_order': order}, 'repr-history')
+    return R(None, 'ok', nontrivial=len(order) > 1, steps=len(order))
+
+
+def gen_repr_history(tier):
+    cases = []
+    for g in EQUAL_GROUPS:
+        for n in range(1, len(g) + 1):
+            for order in itertools.permutations(g, n):
+                cases.append(list(order))
+    return cases
+
+
 def subs(tier, only=None):
     from ..engine import fast_tracebacks
     fast_tracebacks()
@@ -360,6 +410,10 @@ def subs(tier, only=None):
                        rule='case = (root T/S/A, bare or Path, step sequence); non-trivial = at least one step',
                        min_nontrivial=1000, min_outcomes=1,
                        required_tags=['.', '[', '(', 'x', 'X', 'P', 'T', 'S', 'A', 't', 'path']))
+    if only in (None, 'repr-history'):
+        out.append(Sub('repr-history', gen_repr_history(tier), run_repr_history,
+                       rule='case = ordered selection from a group of expressions whose arguments are equal but distinct (1 / 1.0 / True ...), printed in that '
+                            'order in one pristine process: every repr must still evaluate back to its own expression', min_nontrivial=10, min_outcomes=1))
     if only in (None, 'seqlaws'):
         out.append(Sub('seqlaws', gen_seqlaws(tier), run_seqlaws,
                        rule='case = Path of length 0..N over 5 step kinds; every index in [-7,7], every in-range slice triple, '
